@@ -289,8 +289,17 @@ var _ uuid.UUID
 //@ assume
 //@ modifies nothing
 
+// (the id travels in the raft entry: every replica and every replay of the log notifies under it, so it has to be unique
+// across nodes and restarts - a random UUID drawn for this very registration, not anything local to the notificator)
 //@ func (*utils.Notificator).Create
 //@ props C11
+//@ ghost draws int = 0
+//@ ghost drawn uuid.UUID = any
+//@ at call uuid.NewV4
+//@ set drawn = $ret0
+//@ set draws = draws + 1
+//@ end
+//@ ensures [C11 registered-under-a-freshly-drawn-random-id] draws == 1 && ret1 == drawn
 //@ requires [capacity] bufSize >= 1
 //@ requires [wf] this.chans != nil
 //@ ensures [registered] has(this.chans, ret1)
